@@ -66,6 +66,15 @@ claims.update({
    text="Reads-frame obligations over all 19 subcommands that call TryCache: every flag/argument value and every secondary input (guest, host, query, feature table, locator, selector ...) that the command reads after TryCache must flow into the payload hashed into the cache key (def-use walk over the typed AST of each command function; 130+ named obligations, one per (command, value)); plus the typestate half: ioDelegate.Close is proved by contract (SMT) to remove an entry the command did not commit, Commit only sets the flag, and in every command no error return is reachable after Commit. Two defects were found and repaired (extract -v missing from the key; a failed run left a finalised entry).",
    note="Not an SMT proof of bytes-equality of runs: the argument is structural (the output is a function of the primary input and of the values read after TryCache; all of them are in the key; entries are kept only for successful runs). Assumed: the digest of the primary input and the JSON payload encoding are injective enough (hash collisions ignored), secondary input files do not change between the digest and their use, cache.Open validates entries (that half is C13), deferred calls run as the Go spec says (defer is not executed in the model), flags.Context/Raise are external. Histories of 1..4 runs over a shared directory are covered only through this per-run argument (a hit replays bytes written by a committed identical-key run), not explored as sequences.", design='4/C14'),
 })
+claims.update({
+ 'C12': dict(
+   category='other',
+   text="Two parts. Proof: the merge table of LocationList.Push, the only place where Repair merges anything, is under contract for every leaf pair (set and order of residues preserved, two ranges merged exactly when they abut and either force is set or a 3'-partial end meets a 5'-partial start, outer partial markers kept). Bounded (not proved): Repair itself is run on every feature table within a stated bound (all tables of 1-2 features and, quick: 60000 sampled / thorough: all 4 million, tables of 3 features over 53 locations x 3 classes; plus 8100 cut/concat/repair round trips) and checked for: never panics, argument unchanged, per-class coverage preserved, idempotent, unchanged when nothing abuts (exact antecedent for forward ranges, conservative one otherwise), classes kept apart, restoration after 1-2 cuts. Three defect classes found on the unchanged tree are recorded as known findings.",
+   note=TB+" Repair's own body (map iteration order, fmt-built keys, unbounded linked list) is outside the verified subset: everything named gts.Repair/bounded:* is an enumeration result within the bound, not a proof. Locations.Less/LocationLess and sort.Sort are exercised, not specified. Tables of 4+ features, coordinates other than {0,3,6,9}, Ambiguous locations and nested composites are outside the bound.", design='4/C12'),
+ 'C15': dict(
+   text="Partial: the library steps the multi-site commands are built from are proved for all inputs - Minimize (sorted, pairwise separated, covers exactly the union), InvertLinear/invertSegments (exact complement, increasing), BySegment order, Segment Head/Tail/Len, and the sequence-level Delete, Erase, Insert, Embed, Rotate and Slice contracts (exact residues, feature count, frames). A change to any of these steps that alters what a command does is caught here.",
+   note=TB+" NOT decided: the per-record loops inside cmd/gts/{delete,insert,infix,split,rotate,extract}.go themselves - the right-to-left order of application, de-duplication of sites (containsRegion, the unique map in split), the split arithmetic for circular records and the 'region shorter than the record' filter of extract are not under contract (the command functions mix flag parsing, I/O and closures over function variables and are outside the verified subset). The claim is therefore about the steps, not about their composition.", design='4/C15'),
+})
 not_app = {
  'C01': "string/grammar round trip through fmt, go-wrap and go-pars closures and global registries: no contract within reach expresses parse(print(x)) = x (DESIGN.md section 7)",
  'C17': "FASTA writer/reader behaviour lives in three external string libraries joined by a closure; nothing in /repo to put a provable contract on (DESIGN.md section 7)",
@@ -83,7 +92,7 @@ for pid in ids:
           "engine": "gvc",
           "level_claimed": {"category": c.get('category', 'proof'), "text": c['text'], "design_ref": c['design']},
           "level_note": c['note'],
-          "technique": ("def-use reads-frame analysis over the typed AST plus contract-based deductive verification of ioDelegate.Close/Commit (z3/cvc5)" if pid == 'C14' else "contract-based deductive verification: weakest-precondition VCs generated from /repo's typed AST against //@ contracts, discharged by z3/cvc5"),
+          "technique": ("def-use reads-frame analysis over the typed AST plus contract-based deductive verification of ioDelegate.Close/Commit (z3/cvc5)" if pid == 'C14' else "contract-based deductive verification of LocationList.Push (z3/cvc5) plus a bounded exhaustive enumeration of the real Repair (labelled bounded, not proof)" if pid == 'C12' else "contract-based deductive verification: weakest-precondition VCs generated from /repo's typed AST against //@ contracts, discharged by z3/cvc5"),
         })
 na = []
 for pid in ids:
